@@ -313,6 +313,22 @@ def pool_map(job_fn, jobs: list, workers: int | None = None, wall_cap: float | N
     return results, truncated
 
 
+def interleave(primary: list, secondary: list) -> list:
+    """primary with the items of secondary spread evenly through it (order within each kept): when a wall cap
+    truncates a batch, both kinds have progressed proportionally."""
+    if not primary or not secondary:
+        return list(primary) + list(secondary)
+    every = max(1, len(primary) // len(secondary))
+    out = []
+    si = 0
+    for n_, x in enumerate(primary):
+        out.append(x)
+        if (n_ + 1) % every == 0 and si < len(secondary):
+            out.append(secondary[si])
+            si += 1
+    return out + list(secondary[si:])
+
+
 # --------------------------------------------------------------------------
 # ddmin (list minimisation)
 # --------------------------------------------------------------------------
